@@ -577,9 +577,10 @@ class ISD(model.Document):
 
         isd_element.set_style(initial_style, initial_value)
 
-    # compute style properties
+    # compute style properties, which do not apply to br elements
 
-    ISD._compute_styles(styles_to_be_computed, parent, isd_element)
+    if not isinstance(element, model.Br):
+      ISD._compute_styles(styles_to_be_computed, parent, isd_element)
 
     # prune element is display is "none"
 
